@@ -31,6 +31,17 @@ Theorem C01_store_floats_saturate_any_magnitude : forall f r vs,
 Proof. exact set_val_floats_saturate_any. Qed.
 Print Assumptions C01_store_floats_saturate_any_magnitude.
 
+(* complex inputs: each component is quantized on its own, the flags are those of either part *)
+Theorem C01_store_complex_arrays : forall f r o vre vim,
+  core_fmt f -> Forall (core_dy f) vre -> Forall (core_dy f) vim ->
+  set_val_complex f r o (map f64_of_core vre) (map f64_of_core vim)
+  = Ok {| cw_re := map (quantize f r o) vre; cw_im := map (quantize f r o) vim;
+          cw_ovf := existsb (ovf_cond f r) vre || existsb (ovf_cond f r) vim;
+          cw_unf := existsb (unf_cond f r) vre || existsb (unf_cond f r) vim;
+          cw_inacc := existsb (inacc_cond f r o) vre || existsb (inacc_cond f r o) vim |}.
+Proof. exact set_val_complex_core. Qed.
+Print Assumptions C01_store_complex_arrays.
+
 (* integer carriers (Python int, NumPy integer scalars/arrays, lists of ints) *)
 Theorem C01_store_int_arrays : forall f r o zs,
   core_fmt f -> Forall (core_int f) zs ->
